@@ -50,6 +50,14 @@ pub mod l3 {
 //@@include c01_green/iface.rs
 }
 
+/// C02, "no soft-keyword token kinds": `soft_kind`, `no_soft_kinds` (ensured by c01_reader's LuaLexer::tokenize), `nosoft_at`, `tok_soft`
+/// (precondition `nosoft` of parse_chunk in the grammar units c02_gstat / c02_gexpr / c02_grammar) — the file all of them include
+pub mod ns {
+    use vstd::prelude::*;
+    use super::*;
+//@@include c02_grammar/nosoft_iface.rs
+}
+
 // ---------------------------------------------------------------------------------------------
 // G0: the two definitions of `eaten` (c01_parser / c01_green) denote the same function
 // ---------------------------------------------------------------------------------------------
@@ -251,6 +259,37 @@ pub proof fn lemma_g3_lossless(b: Seq<u8>, events: Seq<MarkEvent>, leaves: Seq<S
     lemma_eaten_agree(events);
     lemma_concat_chain(b, leaves, b.len() as int);
     assert(b.subrange(0, b.len() as int) =~= b);
+}
+
+// ---------------------------------------------------------------------------------------------
+// G4 (C02): the lexer output satisfies the precondition the grammar units add to parse_chunk
+// ---------------------------------------------------------------------------------------------
+/// `no_soft_kinds(toks)` (PROVED by c01_reader: postcondition of LuaLexer::tokenize, label C02.lexer.no-soft-keyword-kinds) is the
+/// grammar's `nosoft` at cursor 0 (`nosoft(p) == nosoft_at(p.tokens@, p.token_index)`, parse_chunk starts with token_index == 0)
+pub proof fn lemma_g4_nosoft(toks: Seq<LuaTokenData>)
+    requires
+        ns::no_soft_kinds(toks),
+    ensures
+        ns::nosoft_at(toks, 0), /*@C02.compose.lexer-output-is-nosoft*/
+{
+    assert forall|j: int| 0 <= j < toks.len() implies !#[trigger] ns::tok_soft(toks, j) by {
+        assert(!ns::soft_kind(toks[j].kind));
+    }
+}
+
+/// everything parse_chunk requires of the token stream in the grammar units, from the two proved postconditions of the lexer
+/// (`tiled`, `no_soft_kinds`) and the input bound H-NTOK
+pub proof fn lemma_g4_parse_chunk_pre(toks: Seq<LuaTokenData>, b: Seq<u8>, n: int)
+    requires
+        l1::tiled(toks, b, 0, n),
+        toks.len() < 0x7fff_ffff,
+        ns::no_soft_kinds(toks),
+    ensures
+        l2::tokens_ok(toks),
+        ns::nosoft_at(toks, 0), /*@C02.compose.lexer-output-is-nosoft*/
+{
+    lemma_g1_tokens_ok(toks, b, n);
+    lemma_g4_nosoft(toks);
 }
 
 // ---------------------------------------------------------------------------------------------
